@@ -63,6 +63,10 @@ def run : Runner
   | "concquery", _, impl =>
     -- queries leave the filter unchanged (C09_query_pure), so every order of them answers true for inserted items
     pure { model := "ok", prop := if impl == "ok" then "ok" else "violated:inserted item reported absent under concurrent queries " ++ impl }
+  | "gcsimm", _, impl =>
+    -- "Golomb-coded set filters, being immutable": overwriting the constructor's inputs or an accessor's output
+    -- never changes what a filter serialises to
+    pure { model := "111111", prop := if impl == "111111" then "ok" else "violated:GCS filter shares memory with its inputs or outputs " ++ impl }
   | "gcsconc", _, impl => pure { model := "ok", prop := if impl == "ok" then "ok" else "violated:concurrent GCS queries interfere" }
   | _, _, _ => none
 
